@@ -251,3 +251,57 @@ Definition judge_cyc (x : case * Z) : Z :=
   else if snd x =? 0 then 0 else 2.
 
 Definition judge_cyc_detail (x : case * Z) : Z := cyc_detail (fst x).
+
+(* ======== strengthened after seeding, round 2 (notes/C02.md) ========
+   Aggregating rules whose bodies contain built-in predicate atoms that bind variables
+   (:match_pair :match_cons :list:member :match_field :match_entry; Datalog/AggBuiltin.v).
+   A built-in goal is a PAtom with the built-in's id; the built-in relations are
+   materialised over the sub-constants of the facts at hand.
+   Observer: exactly `observe` above (base facts + per rule spec_do over C01 solve of the
+   rule's own body), evaluated on Go's facts G extended by the built-in relations over the
+   sub-constants of G - the body solutions are computed with the built-ins evaluated.
+   Model: the same rewrite + strata + do-transforms, the relations materialised anew before
+   every stratum (bi_eval_program). Verdict codes as for judge. *)
+From MV Require Export Datalog.AggBuiltin.
+
+Definition run_model_bi (c : case) : outcome (list fact) :=
+  bi_eval_program (rewrite ord_id) (Z.to_nat (c_fuel c)) (c_prog c) (c_layers c) (c_store c) (c_init c).
+
+Definition observe_bi (c : case) (G : list fact) : option bool :=
+  observe c (with_builtins (c_prog c) G).
+
+Definition judge_bi (c : case) : Z :=
+  let m := run_model_bi c in
+  match c_obs c with
+  | OFacts G =>
+      match observe_bi c G with
+      | Some false => 2
+      | None => match m with EvalError => 4 | _ => 7 end
+      | Some true =>
+          match m with
+          | Ok M => if set_eqb (norm (c_sort c) (visible M)) (norm (c_sort c) G) then 0 else 1
+          | EvalError => 4
+          | OutOfFuel => 5
+          end
+      end
+  | OEvalErr => match m with EvalError => 0 | Ok _ => 3 | OutOfFuel => 5 end
+  | OLimit => 5
+  end.
+
+Definition model_tokens_bi (c : case) : list Z :=
+  Run.C01.outcome_tokens (match run_model_bi c with Ok M => Ok (norm (c_sort c) (visible M)) | o => o end).
+
+Definition model_tokens_all_bi (c : case) : list Z := Run.C01.outcome_tokens (run_model_bi c).
+
+Definition expected_tokens_bi (c : case) : list Z :=
+  match c_obs c with
+  | OFacts G =>
+      let hs := agg_heads (c_prog c) in
+      let G' := with_builtins (c_prog c) G in
+      match flat_map_opt (expected_for G') (filter (fun r => memZ (r_head r) hs) (c_prog c)) with
+      | Some ex => Run.C01.outcome_tokens
+                     (Ok (norm (c_sort c) (add_all [] (filter (fun f => memZ (fst f) hs) (c_store c ++ c_init c) ++ ex))))
+      | None => [1]
+      end
+  | _ => [1]
+  end.
